@@ -211,12 +211,27 @@ func verify(jobPath, out string) {
 		return kit.M{"res": res, "it": rn.iterate(true), "ita": rn.iterate(false), "tmpfiles": tmp}
 	}
 	before := pass()
+	// the interrupted Puts are retried after the restart (client retry / replication), BEFORE any clean-up:
+	// leftovers of the crashed run must not leak into the objects
+	retried := make([]string, j.N)
+	for a := 1; a <= j.N; a++ {
+		r := guard(func() int {
+			if err := t.Put(u.addr(a), u.get(a, 1).stored); err != nil {
+				fmt.Fprintln(os.Stderr, "retry put:", a, err)
+				return resErr
+			}
+			return resOK
+		})
+		retried[a-1] = map[int]string{resOK: "ok", resErr: "err", resPanic: "panic"}[r]
+	}
+	retry := pass()
+	retry["put"] = retried
 	cl := "ok"
 	if err := t.CleanUpTmp(); err != nil {
 		cl = err.Error()
 	}
 	after := pass()
 	_ = t.Close()
-	b, _ := json.Marshal(kit.M{"before": before, "cleanup": cl, "after": after})
+	b, _ := json.Marshal(kit.M{"before": before, "retry": retry, "cleanup": cl, "after": after})
 	kit.Must(os.WriteFile(out, b, 0o600))
 }
